@@ -965,7 +965,7 @@ def gen_view_step(rng, root, path, raw):
     n = len(w)
     base = {'parent': path, 'attr': raw, 'kind': 'rep'}
     k = rng.choice(['setitem', 'setslice', 'setslice', 'delitem', 'delslice', 'insert', 'append', 'extend', 'pop',
-                    'revslice', 'revslice'])
+                    'revslice', 'revslice', 'revslice'])
     bad = rng.random() < 0.15
     if k == 'revslice':
         # xs[a:b] = [v, ...] with b < a (range(n)[a:b] is empty: a pure insertion at a), early in the list
@@ -1413,6 +1413,30 @@ CORPUS = [
      [{'parent': [['raw_directives_with_comments', 1], ['raw_number']], 'attr': 'raw_number_add_expr', 'kind': 'req',
        'op': 'set_req', 'donors': [{'k': 'child_span_doc', 'path': [['raw_directives_with_comments', 0], ['raw_number']]}]}]),  # D15
 ]
+# views read first, then raw xs[i:j] = [v] with j < i (an insertion at i > 0), then a value-level edit at / after i
+_TX = [['raw_directives_with_comments', 0]]
+_TOUCH = lambda raw, views: {'parent': _TX, 'attr': raw, 'kind': 'val', 'op': 'touch', 'raw': raw, 'views': views}
+_REV = lambda raw, a, b, j: {'parent': _TX, 'attr': raw, 'kind': 'rep', 'op': 'setslice', 's': [a, b, None],
+                            'donors': [{'k': 'copy_doc', 'path': _TX + [[raw, j]]}]}
+_VW = lambda view, raw, **kw: {'parent': _TX, 'attr': view, 'kind': 'val', 'raw': raw, 'view': True, 'plain': True, **kw}
+CORPUS += [
+    (RICH, [_TOUCH('raw_tags_links', ['tags', 'links']), _REV('raw_tags_links', 3, 1, 1),
+            _VW('tags', 'raw_tags_links', op='setitem', i=2, values=['zzz'])]),
+    (RICH, [_TOUCH('raw_tags_links', ['tags', 'links']), _REV('raw_tags_links', 2, 0, 1),
+            _VW('tags', 'raw_tags_links', op='pop', i=1, values=[])]),
+    (RICH, [_TOUCH('raw_tags_links', ['tags', 'links']), _REV('raw_tags_links', 1, 0, 0),
+            _VW('links', 'raw_tags_links', op='delitem', i=-1, values=[])]),
+    (RICH, [_TOUCH('raw_postings_with_comments', ['raw_postings']), _REV('raw_postings_with_comments', 2, 1, 0),
+            {'parent': _TX, 'attr': 'raw_postings', 'kind': 'val', 'raw': 'raw_postings_with_comments', 'view': True,
+             'op': 'pop', 'i': 2, 'donors': []}]),
+]
+# illegal cost combinations: refused with the braces untouched
+_CS = [['raw_directives_with_comments', 0], ['raw_postings_with_comments', 0], ['raw_cost']]
+for _form, _prop in (('{{500.00}}', 'number_per'), ('{500.00}', 'number_total'), ('{{500.00, 2020-01-01}}', 'number_per'),
+                     ('{1 # 2 USD}', 'currency')):
+    CORPUS.append(('2000-01-01 * "t"\n    Assets:A  10 HOOL %s\n    Assets:Cash\n' % _form,
+                   [{'parent': _CS, 'attr': _prop, 'kind': 'val', 'op': 'set_value', 'nomon': True,
+                     'vtype': None if _prop == 'currency' else 'decimal', 'value': None if _prop == 'currency' else '3'}]))
 
 
 def run_slots(ctx: common.Ctx, props, n_docs: int, n_ops: int):
@@ -1436,7 +1460,7 @@ def run_slots(ctx: common.Ctx, props, n_docs: int, n_ops: int):
                 reported.add(sig)
                 ctx.monitor_failure(sig, what, {'text': text, 'script': script})
     for di in range(n_docs):
-        mode = rng.choice(['general', 'general', 'general', 'general', 'views', 'views', 'views', 'cost', 'cmt'])
+        mode = rng.choice(['general', 'general', 'general', 'general', 'views', 'views', 'views', 'cost', 'cost', 'cmt'])
         text = cost_ledger(rng) if mode == 'cost' else gen_docs.ledger(rng, n_dir=rng.choice([1, 2, 3, 4, 6]))
         if mode == 'views' and rng.random() < 0.7:
             text = RICH + text
